@@ -93,8 +93,19 @@ def alloc_order(root):
                 found.append((m.start(), ev))
         found.sort()
         rows.append((lean_name, kind, [e for _, e in found]))
+        # the argument is recorded with simple `let x = e;` bindings of the function resolved (so an
+        # introduced local does not change the row), spaces normalised
+        lets = {m.group(1): re.sub(r"\s+", " ", m.group(2)).strip()
+                for m in re.finditer(r"\blet\s+(?:mut\s+)?(\w+)\s*(?::\s*[\w:<>]+\s*)?=\s*([^;{}]*?)\s*;", body)}
         for m in re.finditer(r"([\w:<>]+?)::check_size\s*\(([^;]*?)\)\s*\?", body):
-            caps.append((lean_name, m.group(1), re.sub(r"\s+", " ", m.group(2)).strip()))
+            arg = re.sub(r"\s+", " ", m.group(2)).strip()
+            for _ in range(4):
+                if arg in lets and "check_size" not in lets[arg]:
+                    arg = lets[arg]
+            # the local holding the converted (axis) shape is called `shape` in the row, whatever its name
+            for am in re.finditer(r"\blet\s+(\w+)\s*(?::\s*[\w:<>]+\s*)?=[^;]*axis_shape[^;]*;", body):
+                arg = re.sub(r"\b" + re.escape(am.group(1)) + r"\b", "shape", arg)
+            caps.append((lean_name, m.group(1), arg))
     lines = ["-- GENERATED by translate/t1.py from /repo/src — do not edit",
              "namespace Matreex.Gen",
              "inductive AllocEvent | conformable | sizeCheck | capacityCheck | alloc deriving Repr, DecidableEq, BEq",
@@ -551,6 +562,9 @@ def ensure_forms(root):
         if not m:
             # the same guard written with an early return
             m = re.fullmatch(r"\{ if !self\.(\w+)\((\w*)\) \{ return Err\(Error::(\w+)\); \} Ok\(self\) \}", body)
+        if not m:
+            # ... or with the predicate negated and the branches exchanged
+            m = re.fullmatch(r"\{ if !self\.(\w+)\((\w*)\) \{ Err\(Error::(\w+)\) \} else \{ Ok\(self\) \} \}", body)
         if not m:
             problems.append(name + ": body not recognised"); rows.append((name, "unrecognised", "")); continue
         # the argument's local name is normalised to `rhs`
